@@ -15,6 +15,8 @@
 //!        L<n> yield n times (lets the other threads settle)
 //!        Q<c> unpark caller c's thread (a stale wake-up token: park may always return spuriously)
 //!        V<e> block until event e   W wait until every started panic has finished unwinding   P<q> every scheduling attempt on q must panic
+//!        M<n> set the pool maximum to n at once (possibly while scheduling calls are in flight); when lowering, despawn_threads_if_overloaded must return
+//!        m<n> wait until nothing is queued, running or busy, then set the maximum to n (a change 'between phases'): afterwards at most n pool threads
 //!        B<n> a Desync<u64> (no drop glue) with n queued operations is dropped: the drop must wait for all of them
 //! Body:  t touch | c yield co-operatively (wake the own waker, return Pending once) | o<e>-<e2> await event e or e2, whichever fires first (the other keeps a stale waker)
 //!        | w<e> await event (future bodies) | a<e>-<e2> await event e and fire e2 once the waker is registered | g<g> block on gate | p panic | s<e> fire event | (op) nested op
@@ -52,6 +54,8 @@ pub enum Op {
     Noise(usize),
     Yield(usize),
     PlainDrop(usize),
+    SetMax(usize),
+    SetMaxQuiet(usize),
 }
 
 #[derive(Clone, Debug, PartialEq)]
@@ -115,6 +119,8 @@ pub fn fmt_op(o: &Op) -> String {
         Op::Noise(c) => format!("Q{}", c),
         Op::Yield(n) => format!("L{}", n),
         Op::PlainDrop(n) => format!("B{}", n),
+        Op::SetMax(n) => format!("M{}", n),
+        Op::SetMaxQuiet(n) => format!("m{}", n),
     }
 }
 impl Program {
@@ -215,6 +221,8 @@ fn parse_op(cs: &[char], i: &mut usize) -> Result<Op, String> {
         'Q' => Op::Noise(parse_num(cs, i)?),
         'L' => Op::Yield(parse_num(cs, i)?),
         'B' => Op::PlainDrop(parse_num(cs, i)?),
+        'M' => Op::SetMax(parse_num(cs, i)?),
+        'm' => Op::SetMaxQuiet(parse_num(cs, i)?),
         _ => return Err(format!("bad op {}", c))
     })
 }
@@ -357,6 +365,20 @@ pub fn profile(name: &str) -> Option<Profile> {
     [P_CORE, P_POOL, P_SYNC, P_TRY, P_FUT, P_FSYNC, P_SUSP, P_DROP, P_GATE].into_iter().find(|p| p.name == name)
 }
 
+/// pool-size scenarios (C17): a desync-heavy program with nested scheduling from inside jobs; caller 0 changes the maximum between
+/// (and during) bursts of work - lowering it while the threads to be despawned are still busy and scheduling work themselves
+pub const P_POOLCHG: Profile = Profile { name: "poolchg", nq: (2, 3), callers: (1, 2), ops: (2, 5), pool: (0, 3),
+    w_desync: 8, w_sync: 2, w_try: 1, w_fd: 0, w_fs: 0, w_after: 0, w_suspend: 0, w_drop: 0, nested: 30, awaits: 0, gates: 0, poll_drop: 0 };
+pub fn generate_poolchg(r: &mut Rng) -> Program {
+    let mut p = generate(&P_POOLCHG, r);
+    let n = 1 + r.below(3);
+    let single = p.callers.len() == 1;
+    for _ in 0..n { let at = r.below(p.callers[0].len() + 1); let v = r.below(4); p.callers[0].insert(at, if single && r.chance(1, 2) { Op::SetMaxQuiet(v) } else { Op::SetMax(v) }); }
+    // longer jobs, so that a despawn meets busy threads
+    for c in p.callers.iter_mut() { for o in c.iter_mut() { if let Op::Desync(_, b) = o { if r.chance(1, 2) { b.push(Prim::Touch); b.push(Prim::Touch); } } } }
+    p
+}
+
 fn range(r: &mut Rng, (lo, hi): (usize, usize)) -> usize { lo + r.below(hi - lo + 1) }
 
 /// Generates a mostly-valid structured program. Nested ops only go to higher-numbered objects (a fixed order, no cycles);
@@ -433,6 +455,8 @@ pub fn generate(p: &Profile, r: &mut Rng) -> Program {
         let mut f: Vec<Op> = fires.iter().map(|e| Op::Fire(*e)).collect();
         // shuffle
         for i in (1..f.len()).rev() { let j = r.below(i + 1); f.swap(i, j); }
+        // now and then the firing caller takes its time, so that operations are suspended (their wakers registered) when an event fires
+        if r.chance(1, 2) { let mut g = vec![]; for o in f { if r.chance(1, 2) { g.push(Op::Yield(1 + r.below(25))); } g.push(o); } f = g; }
         callers.push(f);
     }
     // stale unpark tokens: a thread's park() may return at any time, so every parking loop must re-check its condition
